@@ -46,5 +46,10 @@ func VerifC25Request(names, values []string) (*http.Request, int) {
 	if err != nil {
 		return nil, 2
 	}
+	// the interim "100 Continue" reply to the client is not part of what is forwarded; without a running
+	// serve loop it would block the first body read
+	if rb, ok := req.Body.(*RequestBody); ok {
+		rb.needsContinue = false
+	}
 	return req, 0
 }
